@@ -14,6 +14,7 @@ import (
 	"github.com/smart-core-os/sc-api/go/types"
 
 	"github.com/smart-core-os/sc-golang/internal/minibus"
+	"github.com/smart-core-os/sc-golang/internal/verifhook"
 )
 
 type Collection struct {
@@ -150,6 +151,7 @@ func (c *Collection) Update(id string, msg proto.Message, opts ...WriteOption) (
 		}
 		return nil, err
 	}
+	verifhook.At("coll.update.afterCommit")
 	changeType := types.ChangeType_UPDATE
 	if oldValue == nil || created != nil {
 		changeType = types.ChangeType_ADD
@@ -179,6 +181,7 @@ func (c *Collection) Delete(id string, opts ...WriteOption) (proto.Message, erro
 	c.mu.RLock()
 	oldVal, exists := c.byId[id]
 	c.mu.RUnlock()
+	verifhook.At("coll.delete.afterRead")
 
 	for attempt := 0; attempt < 5; attempt++ {
 		if !exists {
@@ -196,6 +199,7 @@ func (c *Collection) Delete(id string, opts ...WriteOption) (proto.Message, erro
 			return oldVal.body, ExpectedValuePreconditionFailed
 		}
 
+		verifhook.At("coll.delete.beforeLock")
 		c.mu.Lock()
 		oldVal2, exists2 := c.byId[id]
 		if oldVal2 != oldVal || exists2 != exists {
@@ -317,6 +321,7 @@ func (c *Collection) onUpdate(ctx context.Context, config *ReadRequest) (<-chan 
 		res = c.itemSlice(config)
 	}
 
+	verifhook.At("coll.sub.afterSnapshot")
 	ch := c.bus.Listen(ctx)
 	if !config.Backpressure {
 		ch = mergeCollectionExcess(ch)
